@@ -98,7 +98,9 @@ def run_property(pid, tier, seed, jobs):
                 pc["paths"] += r["results"]
                 pc["wall"] += r["wall_s"]
                 pc["ops"].update(r["ops_hit"])
-                had_error = any(p["status"] == "error" for p in r["results"])
+                # a broken case is not explored further - except when the only trouble is a solver model that did not replay
+                # (uninterpreted functions): another path may hold the counterexample that does
+                had_error = any(p["status"] == "error" and not p.get("nonrepro") for p in r["results"])
                 if had_error:
                     continue      # do not fan out further on a broken case
                 if len(pc["paths"]) + len(r["pending"]) > pc["case"].max_paths:
